@@ -145,7 +145,7 @@ Section Full.
 
   (* convertSpec as a whole: the definitions, the endpoints (which add the generated response types), types.Sort,
      the writer, the compiler *)
-  Definition loaded_types (doc:oasdoc) : list itype := fold_left (convert_step safe is_builtin tname map_type) doc [].
+  Definition loaded_types (doc:oasdoc) : list itype := loaded_list safe is_builtin tname map_type doc.
   Definition full_types (doc:oasdoc) (ops:list oop) : list itype :=
     sort_by itype_name (fst (build_ops safe is_builtin tname map_type resp_prefix (loaded_types doc) ops)).
   Definition import_full (doc:oasdoc) (ops:list oop) : proj :=
